@@ -26,8 +26,8 @@ def batch(prop, cases, workers, hashseed, seed):
     for fn in os.listdir(d):
         with open(os.path.join(d, fn)) as f:
             for line in f:
-                g, status, dig = line.split()
-                rows[int(g)] = (status, dig)
+                g, ck, status, dig = line.split()
+                rows[int(g)] = (ck, status, dig)
         os.unlink(os.path.join(d, fn))
     os.rmdir(d)
     return rows, p.returncode, p.stdout
